@@ -8,7 +8,7 @@
 (*                                                                         *)
 (* IDs are quad strings (A5Digits); strings are sequences of ASCII codes.  *)
 (***************************************************************************)
-EXTENDS A5Compact, A5Hilbert, A5Origins, A5Mesh, TLC
+EXTENDS A5Compact, A5Hilbert, A5Origins, A5Mesh, A5Lon, TLC
 
 IsCanonRes(q, r) == IsQuads(q) /\ Canonical(q) /\ ResOfCanon(q) = r
 
@@ -461,6 +461,13 @@ BoundaryOK(e) ==
   /\ e.ccw /\ e.centre_inside
   /\ (~e.touches_pole => e.window_ok)
   /\ e.corner_dev_e12 <= 1000
+\* normalize_longitudes on a synthetic ring given in whole degrees (inputs may carry multiples of 360):
+\* the output is the input unwrapped around SOME reference meridian, in one piece
+UnwrapOK(e) ==
+  /\ Len(e.outs) = Len(e.lons)
+  /\ \E c \in -180..179 : \A i \in 1..Len(e.lons) : e.outs[i] = Unwrap(e.lons[i], c)
+  /\ \A i \in 1..Len(e.outs) : \A j \in 1..Len(e.outs) : e.outs[i] - e.outs[j] < 180
+
 ---------------------------------------------------------------------------
 (* C18: the 12-face frame *)
 
